@@ -109,6 +109,41 @@ def run_task(task):
     return out
 
 
+SHRINK_BUDGET_S = float(os.environ.get("VERIF_SHRINK_S", "20"))
+
+
+class StopShrink(BaseException):
+    """Raised (as a BaseException, which Hypothesis does not treat as a test failure) to end a shrink that has used its
+    time budget; the most recent failing case recorded in `last` is then reported."""
+
+
+def _check_shrink_budget(last):
+    if "t0" in last and time.time() > last["t0"] + SHRINK_BUDGET_S:
+        last["stopped"] = True
+        raise StopShrink()
+
+
+def _accept_failure(last, v, case):
+    """Decide whether a Violation seen by Hypothesis is propagated (True) or swallowed (False).
+
+    - the shrink stays inside the bucket found first (other buckets are found in later rounds);
+    - after SHRINK_BUDGET_S seconds of shrinking only cases that already failed are allowed to fail again, so the shrinker
+      runs out of improvements quickly and Hypothesis' final replay of its best example still fails (bounded shrink time;
+      Hypothesis' own cap is 5 minutes)."""
+    h = case_hash(case)
+    if "bucket" in last:
+        if v.bucket != last["bucket"]:
+            return False
+    else:
+        last["t0"] = time.time()
+        last["seen"] = set()
+        last["bucket"] = v.bucket
+    last["seen"].add(h)
+    last["case"] = case
+    last["v"] = v
+    return True
+
+
 def _run_given(clause, ctx, seed, n, out):
     from hypothesis import given
     from hypothesis import seed as hseed
@@ -120,6 +155,7 @@ def _run_given(clause, ctx, seed, n, out):
     @_settings(n)
     @given(strat)
     def test(case):
+        _check_shrink_budget(last)
         ctx.begin(case)
         try:
             clause.check(case, ctx)
@@ -127,17 +163,17 @@ def _run_given(clause, ctx, seed, n, out):
             if ctx.route(v, case):
                 ctx.end()
                 return
-            if "bucket" in last and v.bucket != last["bucket"]:
-                return  # keep the shrink inside the bucket found first; other buckets are found in later rounds
-            last["bucket"] = v.bucket
-            last["case"] = case
-            last["v"] = v
+            if not _accept_failure(last, v, case):
+                return
             raise
         ctx.end()
 
     try:
         test()
-    except Violation:
+    except BaseException as e:  # noqa: BLE001
+        # Hypothesis may wrap the StopShrink abort (e.g. into FlakyStrategyDefinition): recognised by last["stopped"]
+        if "v" not in last or not (isinstance(e, (Violation, StopShrink)) or last.get("stopped")):
+            raise
         v = last["v"]
         out["failures"].append({"bucket": v.bucket, "detail": v.detail, "case": last["case"]})
 
@@ -149,18 +185,18 @@ def _run_stateful(clause, ctx, seed, n, steps, out):
     last = {}
 
     def on_fail(history, v):
-        # returns False when the failure must be swallowed (other bucket than the one being shrunk)
-        if "bucket" in last and v.bucket != last["bucket"]:
-            return False
-        last["bucket"] = v.bucket
-        last["case"] = history
-        last["v"] = v
-        return True
+        # returns False when the failure must be swallowed (see _accept_failure)
+        _check_shrink_budget(last)
+        if v is None:
+            return True
+        return _accept_failure(last, v, history)
 
     machine = clause.machine(ctx, on_fail)
     try:
         run_state_machine_as_test(hseed(seed)(machine), settings=_settings(n, steps))
-    except Violation:
+    except BaseException as e:  # noqa: BLE001
+        if "v" not in last or not (isinstance(e, (Violation, StopShrink)) or last.get("stopped")):
+            raise
         v = last["v"]
         out["failures"].append({"bucket": v.bucket, "detail": v.detail, "case": last["case"]})
 
@@ -341,10 +377,16 @@ def main(argv=None):
                 if res["failures"]:
                     t = next(t for t in pending if t["clause"] == res["clause"] and t["shard"] == res["shard"])
                     again.append(t)
+            # later rounds search behind the buckets already reported; a handful of shards per clause is enough for that
+            per_clause = collections.Counter()
+            keep = []
             for t in again:
-                t["skip"] = sorted(reported)
-                t["seed"] += 7919
-            pending = again
+                per_clause[t["clause"]] += 1
+                if per_clause[t["clause"]] <= 4:
+                    t["skip"] = sorted(reported)
+                    t["seed"] += 7919
+                    keep.append(t)
+            pending = keep
 
     wall = time.time() - t0
 
